@@ -107,12 +107,67 @@ def check_text(ctx, text, r):
             ctx.violation("unparsed tokens remain but no diagnostic is reported", inp, "a diagnostic", "none")
 
 
+def definition_ranges(ctx):
+    """every location the language server attaches to a definition lies within the text of the module it names:
+    go-to-definition at every use of generated multi-module workspaces (modules laid out differently)"""
+    from . import lsp, lspws
+    ok, out = core.ensure_repo_bins()
+    if not ok:
+        ctx.broken.append("build of the /repo binaries failed: " + out[-300:])
+        return
+    corpus = [{"main.oal": 'use "defs.oal" as d;\n\n\nlet local = num;\n\nres /x on get -> <{ \'a local,\n  \'b d.item }>;\n',
+               "defs.oal": "/* one long line */ let other = str; let item = { 'n num, 'm other };"}]
+    wss = corpus + [lspws.gen_workspace(ctx.rng) for _ in range(12 if ctx.thorough else 4)]
+    for i, files in enumerate(wss):
+        root = lspws.fresh_dir("c11_def_%d" % i)
+        lsp.write_workspace(root, files)
+        texts_ = {"file://%s/%s" % (root, n): t for n, t in files.items()}
+        b = lspws.bindings(files, root)
+        if b is None:
+            continue
+        srv = lsp.Server(root)
+        try:
+            srv.initialize()
+            srv.open("file://%s/main.oal" % root, texts_["file://%s/main.oal" % root])
+            for loc, info in b.items():
+                for u in info["uses"]:
+                    line, col = lspws.pos_of(texts_[loc], u["is"])
+                    r = srv.pos_request("textDocument/definition", loc, line, col)
+                    ctx.cov["evaluations"] += 1
+                    got = r.get("result")
+                    if not isinstance(got, dict) or got.get("uri") not in texts_:
+                        continue
+                    lines = texts_[got["uri"]].split("\n")
+                    rg = got["range"]
+                    bad = None
+                    for end in ("start", "end"):
+                        ln, ch = rg[end]["line"], rg[end]["character"]
+                        if ln >= len(lines) and not (ln == len(lines) and ch == 0):
+                            bad = "%s line %d of %d" % (end, ln, len(lines))
+                        elif ln < len(lines) and ch > len(lines[ln].encode("utf-16-le")) // 2:
+                            bad = "%s character %d beyond the %d UTF-16 units of line %d" % (end, ch, len(lines[ln].encode("utf-16-le")) // 2, ln)
+                    if (rg["start"]["line"], rg["start"]["character"]) > (rg["end"]["line"], rg["end"]["character"]):
+                        bad = "start after end"
+                    if bad:
+                        ctx.violation("the location attached to a definition does not lie within the text of the module it names",
+                                      {"files": files, "file": loc, "position": [line, col]}, "a range inside " + got["uri"].rsplit("/", 1)[1], {"range": rg, "problem": bad})
+                        return
+            ctx.count("definition_workspaces")
+        finally:
+            srv.stop()
+
+
 def check(ctx):
     ctx.proof = core.proof_stage("C11", thorough=ctx.thorough)
     ok, out = core.ensure_harness()
     if not ok:
         ctx.broken.append("harness build against /repo failed: " + out[-600:])
         return core.finish(ctx)
+    if ctx.replay and "files" in json.load(open(ctx.replay))["input"]:
+        definition_ranges(ctx)
+        return core.finish(ctx)
+    if not ctx.replay:
+        definition_ranges(ctx)
     if ctx.replay:
         v = json.load(open(ctx.replay))
         tx = [v["input"]["text"]]
